@@ -114,10 +114,16 @@ package loading
 // another one breaks this.
 // "any malformed BUILD file yields an error": an error returned by a loader is handed to setError before the worker moves
 // on to the next file, whatever the loader says about `matched`.
+// The file goes to the first registered loader that claims its name, the result is that loader's (with the file recorded
+// as its source), and a file nobody claims is not a package and not an error.
 //@ func (*PackageLoader).LoadIfMatched(p, ctx, filePath, fileName) (dto, matched, err)
-//@   trusted
-//@   pure
-//@   ghostset loaderErrorPending := err != nil
+//@   modifies loaderErrorPending
+//@   ensures [pending_iff_error] !old(loaderErrorPending) ==> (loaderErrorPending <==> err != nil)
+//@   ensures [unclaimed_file_is_no_package] (forall i int :: {p.loaders[i]} 0 <= i && i < len(p.loaders) ==> !loaderMatches(p.loaders[i], fileName)) ==> !matched && err == nil
+//@   ensures [source_file_recorded] (exists i int :: 0 <= i && i < len(p.loaders) && loaderMatches(p.loaders[i], fileName)) ==> dto.SourceFilePath == filePath
+//@ loop #1
+//@   invariant [none_claimed_so_far] forall i int :: {p.loaders[i]} 0 <= i && i <= rangeindex ==> !loaderMatches(p.loaders[i], fileName)
+//@   invariant [pending_unchanged] loaderErrorPending == old(loaderErrorPending)
 
 // C16: every file name a loader claims reaches the loaders: the directory walk is started without a file-name filter
 // (spawn precondition of the walker's Start, specs/60_walker.spec).
